@@ -3,6 +3,8 @@ import BfeVerif.C33.Model
 /-!
   C33 driver.   op = `cfg<isw>;` then `;`-separated
      H<id>:<decl>:<end>  D<id>:<dlen>:<pad>:<end>  R<id>:<n>  C<id>  X<id>  T<id>:<code>
+     Q<id>:<n>:<how>  the handler pulls ≤ n octets from its pipe, the serve loop processes a close first
+                      (how 0 client RST_STREAM, 1 server-side reset, 2 none), then receives the bodyReadMsg
   result = one token per executed op (sorted frames `W<id>:<inc>` `R<id>:<code>` `G:<code>` `h<id>:1`,
   R ops prefixed `r<m>` | `rb` | `x`), then `|conn=<n>|<id>:<state>:<inflow>:<buffered>,..` or `|dead`.
 
@@ -41,6 +43,7 @@ def parseEv (t : String) : Option Ev :=
   | "C", some [id] => some (.closeBody id.toNat)
   | "X", some [id] => some (.exit id.toNat)
   | "T", some [id, _] => some (.rst id.toNat)
+  | "Q", some [id, n, how] => some (.readThenClose id.toNat n.toNat how.toNat)
   | _, _ => none
 
 def runToks : St → List Ev → List String → List String × St
@@ -201,6 +204,23 @@ def monStep (m : Mon) (e : Ev) (tok : String) : Mon :=
       if n > c.held then m.flag "read-more-than-held"
       else { m with ss := csUpd m.ss { c with held := c.held - n } }
     | none => m
+  | .readThenClose id _ how =>
+    let m := credit m fs
+    match csFind m.ss id with
+    | some c =>
+      if tok == "x" || tok == "rb" then m else
+      let n := readCount tok
+      let m := (if n > 0 then m.tag "read" else m).tag "race"
+      if n > c.held then m.flag "read-more-than-held"
+      else
+        let c' := { c with held := c.held - n }
+        let m := { m with ss := csUpd m.ss c' }
+        if how == 2 then m
+        else
+          -- octets whose read notification arrives after the close must still be credited
+          let m := m.leak n "leak-read-note-after-close"
+          if c'.live then streamGone m c' false else m
+    | none => m
   | .closeBody id =>
     match csFind m.ss id with
     | some c => if tok == "x" then m else ({ m with ss := csUpd m.ss { c with bodyClosed := true } }).tag "body-close"
@@ -215,6 +235,9 @@ def monStep (m : Mon) (e : Ev) (tok : String) : Mon :=
     match csFind m.ss id with
     | some c => if c.live then streamGone m c false else m
     | none => m
+  | .pull .. => m
+  | .deliver _ => m
+  | .srvReset _ => m
 
 def monitorGo : Mon → List Ev → List String → Mon
   | m, [], _ => m
